@@ -7,7 +7,8 @@ UNITS = {
 PROPS = {
     "C12": dict(
         level="exploration",
-        technique="property-based testing (rapid): generated allocation worlds run through the real daemon "
+        technique="property-based testing (rapid): generated allocation worlds and generated pool histories (ADD/DEL/balancer pass over empty ENI "
+                  "slots and a small cloud whose new ENIs land in different vSwitches) run through the real daemon "
                   "AllocIP (real eni.Manager + Local/Trunk/CRDV2 allocators over a fake API server), reply checked "
                   "against scenario ground truth and a big-integer gateway reference; after every ADD the real GetIPInfo (CHECK/DEL) is asked for the "
                   "same sandbox, put under the same oracle and compared with the ADD reply; the ADD reply is then marshalled and fed to the "
@@ -21,15 +22,20 @@ PROPS = {
         rule="cases drawn by rapid generators (allocation world: legacy pool / exclusive ENI / trunk PodENI / CRD node "
              "binding / CRD PodENI, ipv4|dual|ipv6, 1-4 allocations, CNI conf, runtime bandwidth); non-trivial = reply "
              "with >= 2 NetConfs, or dual-stack, or a runtime bandwidth override, or a CRD node holding stale records of an earlier incarnation of the pod (for the defaulting test: list of >= 2 "
-             "entries; for the datapath table: trunk set); every configuration the daemon returns for the pod is checked: AllocIP reply and the following GetIPInfo reply; distinct = distinct scenario hash",
+             "entries; for the datapath table: trunk set); PodENI records may be incomplete (subnet of a family missing or /31,/32,/127,/128): no configuration (error or empty reply) is accepted there, a reply carrying an address without subnet+gateway is not; pool histories: 2-30 operations over 1-2 slots, non-trivial = dual-stack or an ADD after an ENI was disposed; every configuration the daemon returns for the pod is checked: AllocIP reply and the following GetIPInfo reply; distinct = distinct scenario hash",
         assumptions=[
-            "PodENI objects have the shapes terway's controllers write: every allocation has an IPv4 address with its vSwitch CIDR "
-            "(plus IPv6 with CIDR on dual-stack), Status.ENIInfos has an entry per allocation, interface names are distinct; "
+            "PodENI objects have the shapes terway's controllers write: every allocation has an IPv4 address (plus IPv6 on dual-stack) with its "
+            "vSwitch CIDR - except in the 'incomplete record' class (1 world in 8: one family's CIDR empty or too small for the reserved gateway), "
+            "where handing out no configuration is accepted; Status.ENIInfos has an entry per allocation, interface names are distinct; "
             "default-route flags and the presence of a primary interface are NOT assumed (the daemon must refuse bad combinations)",
             "CRD worlds: the pod's current binding (PodID + current PodUID) is one slot of one ENI; other slots may be held by other pods or, "
             "Valid, by an earlier incarnation of the same namespace/name with a different non-empty PodUID (recreated pod); each such world "
             "repeats the request 6 times because the daemon ranges over Go maps",
-            "pool worlds serve the request from a cached free address (no cloud call); vSwitch CIDRs are /8../29 and /32../120 "
+            "pool histories (TestVerifC12PoolHistory): legacy shared-ENI pool of empty slots, ipv4 or dual stack (an IPv6-only pool is left out: "
+            "with stale state the pool dereferences a nil ENI in a worker goroutine, which would end the run as inconclusive), the harness plays the "
+            "balancer (one syncPool pass with max idle 0) and waits for the dispose worker; a refused ADD (pool full) is not judged; the subnet "
+            "ground truth is the vSwitch of the live ENI that owns the IPv4 address of the reply",
+            "single-ADD pool worlds serve the request from a cached free address (no cloud call); vSwitch CIDRs are /8../29 and /32../120 "
             "with pod addresses never on the network, gateway or last two addresses (the cloud's rule)",
             "ENI MAC addresses are empty or the address of a physical network device of the machine running the check (found through sysfs + "
             "net.Interfaces, e.g. eth0), because link.GetDeviceNumber needs an existing plain device; with such a MAC the ENI index recovered by "
@@ -46,6 +52,7 @@ PROPS = {
                    "datapath drivers do with the SetupConfig (C13).",
         tests=[
             dict(unit="c12", test="TestVerifC12World", quick=10000, thorough=300000),
+            dict(unit="c12", test="TestVerifC12PoolHistory", quick=1600, thorough=40000),
             dict(unit="c12", test="TestVerifC12Parse", quick=10000, thorough=400000),
             dict(unit="c12", test="TestVerifC12DefaultRoute", quick=4000, thorough=200000, shards_quick=2),
             dict(unit="c12", test="TestVerifC12DatapathTable", quick=1000, thorough=20000, shards_quick=1, shards_thorough=2),
